@@ -291,9 +291,10 @@ func runC04(c *Ctx) {
 			for _, acc := range fieldAccesses(f, ".VirtualHostImpl", fld, false) {
 				nacc++
 				key := ord.next(f, "access-"+fld)
+				held, how := accessHeld(c, pkg, acc, "mutex", 0)
 				switch {
-				case lockHeld(acc, "mutex"):
-					c.Pass("C04.R5", key, nearestPos(acc), "vh.mutex held")
+				case held:
+					c.Pass("C04.R5", key, nearestPos(acc), "vh.mutex "+how)
 				case strings.HasPrefix(f.Name(), "New"):
 					c.Pass("C04.R5", key, nearestPos(acc), "construction")
 				default:
@@ -547,7 +548,9 @@ func emptyFresh(v ssa.Value) bool {
 // c04NoEscape (R5): while writers update the backing array in place (append / truncate-and-reuse), the slice read from
 // the field under the lock must not be used once the lock is released: not returned, stored elsewhere, or indexed after
 // the unlock. Exempt when every writer installs a freshly built slice (copy-on-write), which makes old headers immutable.
-func c04NoEscape(c *Ctx, pkg string) {
+func c04NoEscape(c *Ctx, pkg string) { c04NoEscapeRule(c, pkg, "C04.R5") }
+
+func c04NoEscapeRule(c *Ctx, pkg, rule string) {
 	cow := true
 	for _, f := range c.PkgFuncs(pkg) {
 		for _, st := range storesToField(f, ".VirtualHostImpl", "routes", false) {
@@ -585,7 +588,7 @@ func c04NoEscape(c *Ctx, pkg string) {
 			n++
 			key := ord.next(f, "routes-view")
 			if cow {
-				c.Pass("C04.R5", key, ld.Pos(), "writers are copy-on-write: a loaded header is immutable")
+				c.Pass(rule, key, ld.Pos(), "writers are copy-on-write: a loaded header is immutable")
 				return
 			}
 			bad := ""
@@ -614,7 +617,7 @@ func c04NoEscape(c *Ctx, pkg string) {
 					case *ssa.ChangeType:
 						walk(u)
 					case *ssa.IndexAddr:
-						if !lockHeld(u, "mutex") {
+						if held, _ := accessHeld(c, pkg, u, "mutex", 0); !held {
 							bad = "elements read after the lock is released"
 						}
 					case *ssa.Call:
@@ -622,12 +625,14 @@ func c04NoEscape(c *Ctx, pkg string) {
 							if b.Name() == "append" && len(u.Call.Args) > 0 && u.Call.Args[0] == v {
 								walk(u) // append(routes, r): result is written back (checked at the store)
 							}
-							if (b.Name() == "append" || b.Name() == "copy") && len(u.Call.Args) > 1 && u.Call.Args[1] == v && !lockHeld(u, "mutex") {
-								bad = "copied after the lock is released"
+							if (b.Name() == "append" || b.Name() == "copy") && len(u.Call.Args) > 1 && u.Call.Args[1] == v {
+								if held, _ := accessHeld(c, pkg, u, "mutex", 0); !held {
+									bad = "copied after the lock is released"
+								}
 							}
 							continue
 						}
-						if !lockHeld(u, "mutex") {
+						if held, _ := accessHeld(c, pkg, u, "mutex", 0); !held {
 							bad = "passed to a call made without the lock"
 						}
 					case *ssa.MakeClosure, *ssa.MakeInterface, *ssa.Go, *ssa.Defer:
@@ -636,11 +641,11 @@ func c04NoEscape(c *Ctx, pkg string) {
 				}
 			}
 			walk(ld)
-			c.Check("C04.R5", key, ld.Pos(), bad == "", "the route list read under the lock is only used while the lock is held", "the route list read under vh.mutex is "+bad+", but AddRoute/RemoveAllRoutes rewrite its backing array in place: a lookup can walk a mixture of the old and the new route list and return a route that is the first match of neither")
+			c.Check(rule, key, ld.Pos(), bad == "", "the route list read under the lock is only used while the lock is held", "the route list read under vh.mutex is "+bad+", but AddRoute/RemoveAllRoutes rewrite its backing array in place: a lookup can walk a mixture of the old and the new route list and return a route that is the first match of neither")
 		})
 	}
 	if n < 3 {
-		c.Unresolved("C04.R5", fmt.Sprintf("loads of VirtualHostImpl.routes (found %d)", n))
+		c.Unresolved(rule, fmt.Sprintf("loads of VirtualHostImpl.routes (found %d)", n))
 	}
 }
 
